@@ -13,7 +13,7 @@ S_NOTE = ("Task-granularity interleavings on the real single-threaded executor (
           "operation, every pick order) stand for thread interleavings of linearizable primitives; the primitives "
           "themselves are decided under C12/C13/C15 and the multi-threaded executor protocol under C04/C06 (engine M). "
           "Scenario sizes are small (2-5 models, capacities 1-3, time offsets of a few ns around a second boundary).")
-S_TECH = "stateless DFS over all task pick orders of the real executor x bounded-exhaustive scenario enumeration, reference-model oracle on the event log"
+S_TECH = "stateless DFS over all task pick orders of the real executor x bounded-exhaustive scenario enumeration, reference-model oracle on the event log (+ preemption-bounded DFS of the real multi-threaded executor under shuttle / loom DPOR where listed in the engine field)"
 
 CHECKS = {
     "C01": ("simx", "exploration", S_TECH,
@@ -21,33 +21,33 @@ CHECKS = {
             "step_until, process_*) and concurrent benches are run on the real single-threaded executor under every "
             "task pick order; a reference scheduler (pending occurrences, cancellation, expected time of every sub-step, "
             "time seen by every handler) is checked at every log event.", S_NOTE, "5/C01"),
-    "C02": ("simx", "exploration", S_TECH,
+    "C02": ("simx+shutx", "exploration", S_TECH,
             "Triangle, relay chains, query+send, broadcast+relay and fan benches with capacities 1-2 (senders do block) "
             "under every pick order; each message carries the set of sends completed in the causal past of its sending "
             "(knowledge sets propagated along program order, deliveries and replies) and every recipient must have "
             "processed all of them that were addressed to it.", S_NOTE, "5/C02"),
-    "C03": ("simx", "exploration", S_TECH,
+    "C03": ("simx+shutx", "exploration", S_TECH,
             "Plain/map/filter_map connections to models and sinks from outputs, requestors, event/query sources, "
             "scheduler batches and process_*; volumes up to 2*cap+1; contended recipients; under every pick order the "
             "multiset of (message, recipient) processed must equal the multiset accepted by the connections.", S_NOTE, "5/C03"),
-    "C04": ("simx", "exploration", S_TECH,
+    "C04": ("simx+shutx", "exploration", S_TECH,
             "Content-deterministic benches under every pick order: at every Ok return no handler is half-way, no send "
             "pending, every sent message processed, and the per-command multiset of handler invocations, results and "
             "sink contents is identical across all schedules; a call that does not return is a violation (watchdog).",
             S_NOTE + " The multi-threaded executor's own protocol is explored by engine M when present in the evidence.", "5/C04"),
-    "C05": ("simx", "exploration", S_TECH,
+    "C05": ("simx+shutx+loomx", "exploration", S_TECH,
             "Benches with blocked senders, queries and concurrent wakers of one model under every pick order: init and "
             "handlers of one model never nest or overlap and nothing is handled before init completed.", S_NOTE, "5/C05"),
-    "C06": ("simx", "exploration", S_TECH,
+    "C06": ("simx+shutx", "exploration", S_TECH,
             "Query loops, saturating loops, orphan mailboxes, stalling sub-models (depth 1-2, unnamed), mixtures and "
             "healthy benches under every pick order; exact per-mailbox accounting from the log (deliveries started minus "
             "handlers started, capped by capacity) decides Ok / Deadlock[exact list] / MessageLoss(n).", S_NOTE, "5/C06"),
-    "C07": ("simx", "exploration", S_TECH,
+    "C07": ("simx+seqx+shutx", "exploration", S_TECH,
             "All sequences (depth 4/5) of same-deadline scheduling requests of mixed kinds, origins and targets, model-"
             "origin batches and batches larger than the mailbox, under every pick order; processing order per (origin, "
             "target, time) must follow scheduling order (re-armed periodic occurrences rank at their predecessor's step).",
             S_NOTE, "5/C07"),
-    "C08": ("simx", "exploration", S_TECH,
+    "C08": ("simx+shutx", "exploration", S_TECH,
             "Every request kind (Scheduler::schedule*, Context::schedule*, EventSource actions) x deadline class (past, "
             "now, future; absolute/relative) x period (0, 1, 2) at three simulation times: accepted iff deadline > now "
             "and period != 0, rejected requests never fire, accepted ones fire exactly at their deadlines, stepping "
@@ -67,17 +67,33 @@ CHECKS = {
             "(thorough 3) further calls; classification, attribution, Terminated afterwards, frozen time and no model "
             "code are checked on the single-threaded executor (all pick orders) and on the 2-worker executor.",
             "On the multi-threaded executor the thread schedule is the OS's; the verdicts asserted do not depend on it.", "5/C11"),
-    "C12": ("seqx", "model_checking", "bounded-exhaustive operation sequences on the real queue vs VecDeque reference (explicit enumeration, every trace replayed on the implementation)",
+    "C12": ("seqx+shutx+loomx", "model_checking", "bounded-exhaustive operation sequences on the real queue vs VecDeque reference (explicit enumeration, every trace replayed on the implementation)",
             "Every sequence of push/pop/close up to depth 12 (thorough 15) on the real channel/queue.rs for capacities 1-5 "
             "(powers of two and not; index wrap-around and the len() carry are reached several times) against a VecDeque: "
             "return values, len() and is_closed() after every operation.",
             "Sequential part only in this fragment; the concurrent parts (memory model, wake-up protocol) are decided by the "
             "loom and shuttle engines when their fragments are present in the evidence.", "5/C12"),
-    "C14": ("simx", "exploration", S_TECH,
+    "C13": ("loomx", "exploration", "loom DPOR over generated handle-operation programs (2 threads + executor thread) on the real task code, plus exhaustive sequential programs",
+            "Sequential: every sequence to depth 3 (thorough 4) of {run, drop-runnable, wake_by_ref, wake, clone+wake, drop-waker, cancel, "
+            "drop-token, promise-poll, drop-promise} x {spawn, spawn_and_forget} x three futures. Concurrent: 14 hand-picked programs "
+            "(quick) and every pair of operation sequences (A: up to 2 ops on waker+cancel token, B: up to 1 op on waker+promise) "
+            "(thorough) run against an executor thread under loom with preemption bound 2-3. Oracle: never two Runnables alive, polls "
+            "never overlap (flag + loom cell), no poll after completion or after a cancel that happened-before, every wake issued "
+            "while pending is followed by a poll, future and output each released exactly once.",
+            "Memory of the task allocation itself is observed through drop counters (future, output), not through an allocator hook; "
+            "loom explores the C11 model within the stated preemption bound.", "5/C13"),
+    "C14": ("simx+loomx", "exploration", S_TECH,
             "Requestor and QuerySource with 0..3 (thorough 4) repliers over every vector of connection modes (plain, map, "
             "two filters) and both request parities under every pick order (every completion order): reply vector equals "
             "the expected one in connection order and is returned only after all repliers processed the request; port "
             "clones share connections added through either clone.", S_NOTE, "5/C14"),
+    "C15": ("loomx", "exploration", "loom DPOR (interleavings and C11 memory-model outcomes) on the real seqlock cell and time adapter",
+            "Real SyncCell<TearableAtomicTime> (atomics of monotonic_time.rs redirected to loom): one writer performing 1-3 successive "
+            "writes of times whose seconds and nanoseconds are pairwise distinct, 1-2 readers doing 1-3 reads through try_read and "
+            "through the spinning read (spin loop made visible to loom by the verif-hooks spin hint), plus a release/acquire "
+            "publication variant; preemption bound 1-3 quick, 3-5 thorough. Oracle: every value read was written (no mix of fields), "
+            "per-reader monotone, not older than a published write.",
+            "Readers go through SyncCellReader::read/try_read, the exact path of Scheduler::time()/Context::time(); the writer is SyncCell::write as used by Simulation.", "5/C15"),
     "C16": ("simx", "exploration", S_TECH,
             "Hierarchies of depth 0..3 whose init scripts send events and queries to neighbours through capacity-1/2 "
             "mailboxes, under every pick order: one init per model, inside SimInit::init, before its first handler; early "
@@ -99,7 +115,7 @@ CHECKS = {
             "equal / below tolerance, no tolerance, at the first four synchronisations): one synchronize per new time, "
             "after all earlier computations, arguments never decrease, OutOfSync before any model code of that time.",
             S_NOTE, "5/C18"),
-    "C19": ("simx", "fault_enumeration", "drop-point enumeration x all task pick orders on the real crate, drop-tracking tokens",
+    "C19": ("simx+shutx", "fault_enumeration", "drop-point enumeration x all task pick orders on the real crate, drop-tracking tokens",
             "For each bench (idle, blocked senders, pending query, queued actions of every kind, after a panic, with "
             "orphans) the simulation is dropped at every position of the driver sequence under every pick order; every "
             "model, message, scheduled argument and handler-local value is a tracked token that must be dropped exactly "
@@ -140,10 +156,15 @@ def main():
             "enable": "engine S depends on /repo/nexosim with features=[\"verif-hooks\"]; the loom/shuttle mirrors enable the same feature",
             "baseline_off_cmd": BASELINE_OFF,
             "source_commits": ["fadbd29"],
+            "fix_commits": ["bd7a63b", "ac58999", "c54922d", "4c18616", "c9690c2"],
             "add_only": True,
         },
         "engines": [
-            {"name": "seqx", "path": "engines/seqx", "serves_properties": ["C12", "C17", "C20"],
+            {"name": "shutx", "path": "engines/shutx", "serves_properties": ["C02", "C03", "C04", "C05", "C06", "C07", "C08", "C12", "C19"],
+             "kind_free_text": "mirror of /repo/nexosim/src compiled against shuttle 0.9.3 (engines/mirror/mirror.py rewrites import lines only); own preemption-bounded DFS scheduler; real MT executor, channel, Simulation"},
+            {"name": "loomx", "path": "engines/loomx", "serves_properties": ["C05", "C12", "C13", "C14", "C15"],
+             "kind_free_text": "mirror of /repo/nexosim/src compiled against loom 0.7.2; loom DPOR with preemption bounds on the real queue, task, seqlock cell, cached lock"},
+            {"name": "seqx", "path": "engines/seqx", "serves_properties": ["C07", "C12", "C17", "C20"],
              "kind_free_text": "bounded-exhaustive operation-sequence enumeration on the real data structures (source files bound by #[path]) against reference models"},
             {"name": "simx", "path": "engines/simx", "serves_properties": sorted(k for k, v in CHECKS.items() if "simx" in v[0]),
              "kind_free_text": "stateless exhaustive exploration of the real crate on its single-threaded executor (pick hook), bounded-exhaustive driver sequences, reference-model oracles"},
